@@ -216,6 +216,28 @@ func (g *gen) message(i int) wireMsg {
 			r.Price = sdk.Coin{Denom: g.denom(g.t.NetDenom, noisy), Amount: sdkInt(price)}
 			gs.Resources = append(gs.Resources, r)
 		}
+		// now and then: two amounts beyond 64 bits with opposite signs whose sum is an ordinary in-range amount
+		// (a bound check that looks at a truncated value must not be fooled by them)
+		if len(gs.Resources) >= 2 && g.p(0.04) {
+			k := uint64(1 + g.r.Intn(3))
+			lims := [][2]uint64{{uint64(c.MinUnitCPU), uint64(c.MaxUnitCPU)}, {c.MinUnitMemory, c.MaxUnitMemory}, {c.MinUnitStorage, c.MaxUnitStorage}}
+			which := g.r.Intn(3)
+			lo := lims[which][0]
+			hi := new(big.Int).Lsh(big.NewInt(1), uint(64*k))
+			a := new(big.Int).Add(hi, g.between(2*lo, 3*lo))
+			b := new(big.Int).Neg(new(big.Int).Add(hi, g.between(lo, 2*lo-1)))
+			for i, v := range []*big.Int{a, b} {
+				gs.Resources[i].Count = 1
+				switch which {
+				case 0:
+					gs.Resources[i].Resources.CPU = &atypes.CPU{Units: atypes.ResourceValue{Val: sdkInt(v)}}
+				case 1:
+					gs.Resources[i].Resources.Memory = &atypes.Memory{Quantity: atypes.ResourceValue{Val: sdkInt(v)}}
+				default:
+					gs.Resources[i].Resources.Storage = &atypes.Storage{Quantity: atypes.ResourceValue{Val: sdkInt(v)}}
+				}
+			}
+		}
 		msg.Groups = append(msg.Groups, gs)
 	}
 	return msg
